@@ -155,6 +155,19 @@ pub proof fn lemma_common_safe_everywhere(mp: bool, inner: SimpleExpr, outer: Op
     reveal(prec_bin); reveal(drop_common);
 }
 
+// the empty-list rewriting: `x IN ()` is WRITTEN as `1 = 2` and `x NOT IN ()` as `1 = 1` (prepare_simple_expr_common, by design), but
+// the parent decides the parentheses of that operand from the node it holds - an IN / NOT IN node.  Wherever the parent omits the
+// pair for the IN node, the pair must be redundant for the `=` expression that is actually written (either side, every engine)
+pub proof fn lemma_empty_in_rewrite_is_safe(e: Engine, mp: bool, held: SimpleExpr, written: SimpleExpr, outer: Oper)
+    requires
+        held matches SimpleExpr::Binary(_, hop, _) && (hop == BinOper::In || hop == BinOper::NotIn),
+        written matches SimpleExpr::Binary(_, wop, _) && wop == BinOper::Equal,
+        drop_of(e, mp, held, outer) || (outer matches Oper::BinOper(op) && left_bare(e, mp, held, op)),
+    ensures safe_bare(e, written, outer)
+{
+    reveal(prec_bin); reveal(drop_common); reveal(drop_pg);
+}
+
 // how binary_expr(l, op, r) writes its two operands (decision only)
 pub open spec fn left_bare(e: Engine, mp: bool, l: SimpleExpr, op: BinOper) -> bool {
     drop_of(e, mp, l, Oper::BinOper(op)) || (l matches SimpleExpr::Binary(_, lop, _) && lop == op && lassoc_of(e, op))
@@ -206,6 +219,18 @@ pub proof fn lemma_escape_ok(e: Engine, mp: bool, p: SimpleExpr, c: SimpleExpr)
 pub uninterp spec fn expr_text(e: Engine, x: SimpleExpr) -> Seq<char>;
 pub uninterp spec fn bin_oper_text(e: Engine, op: BinOper) -> Seq<char>;
 pub uninterp spec fn un_oper_text(e: Engine, op: UnOper) -> Seq<char>;
+pub uninterp spec fn cond_text(e: Engine, c: Condition) -> Seq<char>;
+// members of a tuple, comma separated, in call order
+pub open spec fn tuple_inner(e: Engine, xs: Seq<SimpleExpr>, n: nat) -> Seq<char>
+    decreases n
+{ if n == 0 { Seq::<char>::empty() } else { tuple_inner(e, xs, (n - 1) as nat) + (if n > 1 { ", "@ } else { Seq::<char>::empty() }) + expr_text(e, xs[n - 1]) } }
+// the branches of a CASE expression: WHEN (condition) THEN result, in call order
+pub open spec fn whens_text(e: Engine, ws: Seq<CaseStatementCondition>, n: nat) -> Seq<char>
+    decreases n
+{ if n == 0 { Seq::<char>::empty() } else { whens_text(e, ws, (n - 1) as nat) + " WHEN ("@ + cond_text(e, ws[n - 1].condition) + ") THEN "@ + expr_text(e, ws[n - 1].result) } }
+// TRUSTED (std): a Vec's length is a usize
+#[verifier::external_body]
+pub proof fn axiom_vec_len_fits<T>(v: &Vec<T>) ensures v@.len() <= usize::MAX {}
 #[verifier::opaque]
 pub open spec fn paren(p: bool, s: Seq<char>) -> Seq<char> { if p { seq!['('] + s + seq![')'] } else { s } }
 pub proof fn lemma_paren(p: bool, s: Seq<char>)
